@@ -117,6 +117,8 @@ SEMANTIC = [
     ("decreases not satisfied", "decreases"),
     ("possible bit shift underflow/overflow", "shift"),
     ("failed precondition", "pre"),
+    ("precondition not met: index in bounds", "index"),
+    ("precondition not met", "pre"),
     ("recommendation not met", None),
 ]
 RESOURCE = ["Resource limit (rlimit) exceeded", "rlimit", "timed out", "could not prove termination", "loop invariant not satisfied: resource"]
